@@ -961,3 +961,16 @@ def lift_ops(tier):
 PLAN['C14']['stages'] = (lambda f: (lambda tier, seed: f(tier, seed) + lift_ops(tier)))(PLAN['C14']['stages'])
 PLAN['C14']['rule'] += (' Stages lift_ops_*: the same operations on lifted forests (spec/Lift.tla): the proofs live below high trees of '
                         '2^31 .. 2^62 leaves, every position is a shifted one, the leaf count passed to the operations is the big one.')
+
+
+def lift_undo(tier):
+    q = tier == 'quick'
+    st = core('lift_undo', ['mod', 'undo'], 6 if q else 7, 3, stack=1, und=1, invariants=False, timeout=900 if q else 7200)
+    st['fam'] = 'lift'
+    return st
+
+
+PLAN['C06']['stages'] = (lambda f: (lambda tier, seed: f(tier, seed) + [lift_undo(tier)]))(PLAN['C06']['stages'])
+PLAN['C06']['rule'] += (' Stage lift_undo: block/undo behaviours replayed on lifted forests (spec/Lift.tla): a partial map forest created from '
+                        'the bare roots of trees holding 2^31 .. 2^62 leaves applies and undoes the blocks with shifted targets; roots, '
+                        'positions and proofs must be the shifted expectations.')
